@@ -82,6 +82,7 @@ UNITS['lex'] = {
 UNITS['tok'] = {
     'template': 'contracts/tok.vrs',
     'mutants': [
+        ('skip_trivia_skips_every_token', 'while s_.is_valid() && G::Lex::is_trivia(self.tree.tokens.kind(s_))', 'while s_.is_valid()', ['C11.skip_trivia']),
         ('eoi_uses_token_count', 'let end = self.tree.tokens.end();', 'let end = self.tree.tokens.len();', ['C11.span']),
         ('eoi_span_empty', 'end..end + 1', 'end..end', ['C11.span']),
         ('end_is_start_of_last', 'Some((_, range)) => range.end,', 'Some((_, range)) => range.start,', ['C11.tok.end', 'C11.list.end']),
@@ -176,6 +177,15 @@ UNITS['c13l'] = {
         ('lsp_eval_swallows_the_error', 'self.log_compiler_error(&loc, &err); Err(anyhow_msg("evaluation failed"))', 'Err(anyhow_msg("evaluation failed"))', ['C13.lsp.eval']),
         ('lsp_logs_only_the_first_syntax_error', 'self.0.log_syntax_errors(&loc, &errs);', 'if errs.len() > 0 { self.0.log_syntax_errors(&loc, errs.split_at(1).0); }', ['C13.lsp.parse']),
         ('playground_compile_error_becomes_success', 'let err = report_or_internal_error(report(self.0, span, err)); Err(anyhow_msg(err))', 'let _err = report_or_internal_error(report(self.0, span, err)); Ok(())', ['C13.playground.compile_module']),
+    ],
+}
+
+UNITS['c11t'] = {
+    'template': 'contracts/c11t.vrs',
+    'mutants': [
+        ('token_child_becomes_an_error_node', 'ParserMatch::Token(t) => self.tree.new_node(SyntaxNode::new(SyntaxTrunk::Leaf(t))),', 'ParserMatch::Token(t) => self.tree.new_node(SyntaxNode::new(SyntaxTrunk::Error)),', ['C11.compose_node']),
+        ('empty_compose_builds_a_node', 'if children.is_empty() { return ParserMatch::Syntax(kind); }', '', ['C11.compose']),
+        ('child_attached_to_itself', 'self.tree.append(parent, n)', 'self.tree.append(n, n)', ['C11.compose_node']),
     ],
 }
 
@@ -506,7 +516,7 @@ PROPS = {
         'not_decided': ['tokenizer+parser on arbitrary token sequences (parser out of reach)', 'single-file compile entry point, CLI, LSP load/evaluate cycle', 'stack depth under nesting <= 200', 'termination of union::reduce/substitute'],
     },
     'C11': {
-        'units': ['lex', 'tok'],
+        'units': ['lex', 'tok', 'c11t'],
         'kani': _KANI_CONV,
         'level': 'other',
         'obligation_prefixes': ['C11.'],
